@@ -269,7 +269,13 @@ func c16Property(t *rapid.T) {
 		"lifecycle": func(t *rapid.T) {
 			obj := r.objs[rapid.IntRange(0, len(r.objs)-1).Draw(t, "obj")]
 			op := rapid.SampledFrom([]string{"freeze", "freeze", "activate", "activate", "logout", "update", "register"}).Draw(t, "op")
-			if op == "register" {
+			reRegister := false
+			if op == "register" && strings.Contains(obj, ":") && rapid.Bool().Draw(t, "again") {
+				// the chain's admin registers an id that already has a record (whatever its status, also a logged-out
+				// one) once more under a fresh name: a record is only ever created for an id without one
+				reRegister = true
+				newSvcs++
+			} else if op == "register" {
 				// a new service of the chain: its registration proposal stays open while the chain goes on with its life
 				newSvcs++
 				obj = fmt.Sprintf("%s:new%d", chainOf(obj), newSvcs)
@@ -290,6 +296,11 @@ func c16Property(t *rapid.T) {
 					cand = happy
 				}
 				tx = w.BVM(own, constant.RuleManagerContractAddr, "UpdateMasterRule", pb.String("chainA"), pb.String(cand), pb.String("r"))
+			case op == "register" && reRegister:
+				p := strings.Split(obj, ":")
+				tx = w.BVM(own, constant.ServiceMgrContractAddr, "RegisterService", pb.String(p[0]), pb.String(p[1]), pb.String(fmt.Sprintf("svc-again-%d", newSvcs)),
+					pb.String("CallContract"), pb.String("intro"), pb.Uint64(1), pb.String(""), pb.String("details"), pb.String("reason"))
+				op = "register-again"
 			case op == "register":
 				p := strings.Split(obj, ":")
 				tx = w.RegisterServiceTx(own, p[0], p[1], true, "")
@@ -322,6 +333,9 @@ func c16Property(t *rapid.T) {
 			// a higher-priority proposal may end or pause lower ones on the same object: same object, still touched
 			what := fmt.Sprintf("%s %s -> ok=%v %.70s", op, obj, rc.IsSuccess(), rc.Ret)
 			r.ops = append(r.ops, fmt.Sprintf("block %d: %s", w.N.Height(), what))
+			if op == "register-again" && rc.IsSuccess() && before[obj] != "" && before[obj] != "unavailable" {
+				r.f.fail("the registration of %s, which has a record in status %q, was accepted", obj, before[obj])
+			}
 			if rc.IsSuccess() {
 				if pid := sim.ProposalID(rc); pid != "" {
 					p := &c16Proposal{id: pid, obj: obj, op: op}
